@@ -6,6 +6,7 @@
 //   P<i|e|r>                 Filters::setDuplicatePolicy( ignore|exception|replace)
 //   L<log>                   Logging::findCreateLog( log)                    -> id<n>
 //   D<log>/<dest>            getLog( log)->addDestination( dest, recorder)   -> ok | nolog
+//                            (<log> = name, or #<ids>: the log is looked up by id, getLog( id_t))
 //   F<log>[/<dest>]:<M|m|l><level 0..6>      maxLevel / minLevel / level
 //   F<log>[/<dest>]:c<hex of the class list> classes( list)                  -> ok | E:<exception>
 //   S<ids>:<level><class>    Logging::log( id_t, msg)                        -> deliveries
@@ -15,6 +16,8 @@
 //   T<ids>                   49 x S for every (level, class), 7 x Q for every level:
 //                            '.' = consistent, 'X' = discarded although delivered, 'E' = exception
 //   V<log>                   49 x N, 7 x R
+//   M<log>                   49 x  LOG_LEVEL( name, <level>) << <class> << "x"   (the real macro)
+//   I<ids>                   49 x  LOG_LEVEL( id_t, <level>) << <class> << "x"
 // result: one token per operation; after "##": duplicate policy in effect and
 // the type of the cached level filter of every log (internal observables).
 #include <algorithm>
@@ -41,6 +44,7 @@
 #include "celma/common/celma_exception.hpp"
 #include "celma/log/detail/helper_function.hpp"
 #include "celma/log/detail/log_msg.hpp"
+#include "celma/log/log_macros.hpp"
 
 namespace {
 
@@ -137,6 +141,42 @@ template<typename T> std::string table( const T& spec)
    return r;
 }
 
+// one message through the level-guarded macro: pre-check, StreamLog, Logging::log
+template<typename T> std::string macro_send( const T& spec, int level, int cls)
+{
+   g_deliveries.clear();
+   const LogClass lc = static_cast<LogClass>( cls);
+   try
+   {
+      switch (level)
+      {
+      case 0: LOG_LEVEL( spec, undefined) << lc << "x"; break;
+      case 1: LOG_LEVEL( spec, fatal) << lc << "x"; break;
+      case 2: LOG_LEVEL( spec, error) << lc << "x"; break;
+      case 3: LOG_LEVEL( spec, warning) << lc << "x"; break;
+      case 4: LOG_LEVEL( spec, info) << lc << "x"; break;
+      case 5: LOG_LEVEL( spec, debug) << lc << "x"; break;
+      default: LOG_LEVEL( spec, fullDebug) << lc << "x"; break;
+      }
+      return deliveries();
+   } catch (const std::exception& e) { return exc_name( e); }
+}
+
+template<typename T> std::string macro_table( const T& spec)
+{
+   std::string r = "m:";
+   std::string last; int n = 0;
+   auto flush = [&]() { if (n) { r += last + (n > 1 ? "*" + std::to_string( n) : "") + ","; } };
+   for (int l = 0; l < 7; ++l)
+      for (int c = 0; c < 7; ++c)
+      {
+         std::string s = macro_send( spec, l, c);
+         if (s == last) ++n; else { flush(); last = s; n = 1; }
+      }
+   flush();
+   return r;
+}
+
 const char* type_name( celma::log::filter::detail::IFilter* f)
 {
    using FT = celma::log::filter::detail::IFilter::FilterTypes;
@@ -148,6 +188,21 @@ const char* type_name( celma::log::filter::detail::IFilter* f)
    case FT::level: return "level";
    default: return "other";
    }
+}
+
+// a log given by name, or by "#<ids>" through getLog( id_t)
+celma::log::detail::Log* find_log( const std::string& spec)
+{
+   if (!spec.empty() && spec[0] == '#')
+      return Logging::instance().getLog( static_cast<celma::log::id_t>( std::stoul( spec.substr( 1))));
+   return Logging::instance().getLog( spec);
+}
+
+// the name of a log object (only for the tag of the recording destination)
+std::string name_of( celma::log::detail::Log* lg)
+{
+   for (auto& ld : Logging::instance().mLogs) if (ld.mpLog == lg) return ld.mName;
+   return "?";
 }
 
 std::string run_case( const std::vector<std::string>& w)
@@ -177,9 +232,9 @@ std::string run_case( const std::vector<std::string>& w)
          case 'D':
          {
             auto p = a.find( '/');
-            auto* lg = Logging::instance().getLog( a.substr( 0, p));
+            auto* lg = find_log( a.substr( 0, p));
             if (lg == nullptr) { r = "nolog"; break; }
-            lg->addDestination( a.substr( p + 1), new Recorder( a));
+            lg->addDestination( a.substr( p + 1), new Recorder( name_of( lg) + a.substr( p)));
             r = "ok";
             break;
          }
@@ -188,7 +243,7 @@ std::string run_case( const std::vector<std::string>& w)
             auto colon = a.find( ':');
             const std::string tgt = a.substr( 0, colon), set = a.substr( colon + 1);
             auto p = tgt.find( '/');
-            auto* lg = Logging::instance().getLog( tgt.substr( 0, p));
+            auto* lg = find_log( tgt.substr( 0, p));
             if (lg == nullptr) { r = "nolog"; break; }
             Filters* f = lg;
             if (p != std::string::npos) f = lg->getDestination( tgt.substr( p + 1));
@@ -209,6 +264,8 @@ std::string run_case( const std::vector<std::string>& w)
          case 'R': { auto c = a.find( ':'); r = discard( a.substr( 0, c), a[c + 1] - '0'); break; }
          case 'T': r = table( static_cast<celma::log::id_t>( std::stoul( a))); break;
          case 'V': r = table( a); break;
+         case 'M': r = macro_table( a); break;
+         case 'I': r = macro_table( static_cast<celma::log::id_t>( std::stoul( a))); break;
          default: r = "?";
          }
       } catch (const std::exception& e) { r = exc_name( e); }
